@@ -94,7 +94,8 @@ def apply_verdicts(rep: Report, verdicts):
         rep.check(ok, rule, instance, construct, detail, key=key)
 
 
-ALIASING = ("mutates-shared", "mutates-caller-container", "state-dict-aliased", "dtype-cast")
+ALIASING = ("mutates-shared", "mutates-caller-container", "state-dict-aliased", "dtype-cast", "value-set",
+            "global-state-store", "value-identity")
 
 
 def aliasing_event(path):
